@@ -1,1 +1,29 @@
-(* C06 — theorems: see stream model (work in progress) *)
+(* C06 — transparent to I/O granularity: the stream layer.
+   Write side: any partition of the data into Write calls yields the same blocks.
+   Read side: any sequence of Read lengths (0 included) returns the same byte sequence: the k-th
+   Read returns the next min(len, remaining) bytes.
+   The source side (short reads of the underlying io.Reader) is the bit stream layer: modelled
+   (Model/InBS.v, refill loop) and compared with the Go code over short-read schedules on every run. *)
+From Coq Require Import List NArith.
+From KV Require Import Model.Writer Model.Reader Proofs.WriterProofs Proofs.ReaderProofs.
+Import ListNotations.
+Open Scope N_scope.
+
+Theorem C06_write_partition_irrelevant : forall B jobs hint ws1 ws2, 0 < B -> 0 < jobs -> concat ws1 = concat ws2 ->
+  exists a1 a2 b1 b2,
+    do_writes B jobs hint (init_w jobs) ws1 = (a1, true) /\ w_close B jobs hint (fun _ => false) a1 false false = (a2, false) /\
+    do_writes B jobs hint (init_w jobs) ws2 = (b1, true) /\ w_close B jobs hint (fun _ => false) b1 false false = (b2, false) /\
+    map snd (w_out a2) = map snd (w_out b2).
+Proof. intros B jobs hint ws1 ws2 HB HJ. exact (writer_canonical B HB jobs jobs hint hint ws1 ws2 HJ HJ). Qed.
+Print Assumptions C06_write_partition_irrelevant.
+
+Theorem C06_read_sizes_irrelevant : forall B jobs hint data ns, 0 < B -> 0 < jobs ->
+  fst (do_reads B jobs hint (init_r (map FData (chunks B data) ++ [FEnd])) ns) = spec_reads data ns.
+Proof. intros B jobs hint data ns HB HJ. exact (reader_valid_stream B jobs hint HB HJ data ns). Qed.
+Print Assumptions C06_read_sizes_irrelevant.
+
+(* the concatenation of what the Reads return is a prefix of the data, whatever the lengths *)
+Theorem C06_reads_concatenate_to_data : forall data ns,
+  concat (map fst (spec_reads data ns)) = firstn (N.to_nat (fold_right N.add 0 ns)) data.
+Proof. intros data ns. exact (spec_reads_concat ns data). Qed.
+Print Assumptions C06_reads_concatenate_to_data.
